@@ -410,6 +410,12 @@ func runPgHistory(ops []pgOp, faults map[int]int) *pgResult {
 					}
 				}
 				if faulted {
+					// it reports an error, as it must. One kind of error it may not be: "there is no such key", for
+					// a key whose write this handle had acknowledged outside any explicit transaction - that is an
+					// answer, not a report of the failure, and callers act on it (the engine starts a new session)
+					if have && db.IsNotFound(err) && !h.multi && !h.doomed && len(e.doubt[rk]) == 0 && len(h.pending) == 0 {
+						return bad("fault-answered-as-missing-key", i, hs, "%s: a driver call failed during the read and it answered not-found, although %q was acknowledged for that key (log: %s)", desc, want, logTail(e.srv, 8))
+					}
 					break
 				}
 				if !faultsGone {
